@@ -368,6 +368,85 @@ class Gen:
             infix, post = build(need)
             self.add("st", "scan m=stack prog=%s text=%s buf=61*10" % (post, hx("rule r { condition: %s > 0 }" % infix)))
 
+    def fiber_reuse(self):
+        # a regexp whose nested counted repeats keep far more than RE_MAX_FIBERS fibers alive on the hostile buffer;
+        # the SAME scanner scans benign data before and after it
+        if self.explicit:
+            return          # with the variant's tiny fiber limit ordinary regexps already exceed it
+        L = self.c["RE_MAX_FIBERS"]
+        n = 2
+        while n * n < 6 * L:
+            n += 1
+        n = min(n, 120)
+        rules = ('rule h { strings: $a = /head([ab]{1,%d}){1,%d}Q/ condition: $a }\n'
+                 'rule s { strings: $b = /SN[0-9]{3,6}x/ condition: $b }\n'
+                 'rule j { strings: $c = { 41 42 [1-3] ( 43 | 44 ) 45 } condition: $c }') % (n, n)
+        benign = "%s+%s" % (b"..SN12345x..ABzzCE..head".hex(), b"ab".hex() + "*3")
+        hostile = "%s+%s*%d" % (b"head".hex(), b"ab".hex(), 4 * n)
+        for seq in ("1,2,1,1", "2,1", "1,2,2,1", "1,1"):
+            self.add("fr", "scanseq m=fibers need1=1 need2=%d seq=%s text=%s buf=%s buf2=%s%s" % (10 * L + 7, seq, hx(rules), benign, hostile, self.L("RE_MAX_FIBERS")))
+
+    def set_timeout(self):
+        if self.explicit:
+            return
+        # deadline stored for a given number of seconds (read back from the scanner): boundaries of the 32-bit product
+        base = [0, 1, 2, 3, 4, 5, 9, 10, 59, 60, 3600, 86400, 1000000, 2 ** 31 - 1, 2 ** 31 - 2, 2147483, 2147484, 4294967, 4294968]
+        vals = base + [self.r.randint(0, 2 ** 31 - 1) for _ in range(20)] + [self.r.randint(0, 100) for _ in range(10)]
+        for i in range(0, len(vals), 8):
+            self.add("tm", "settimeout s=%s" % ",".join(map(str, vals[i:i + 8])))
+
+    def loop_stack(self):
+        if self.explicit:
+            return
+        kinds = ["r", "e2", "e3", "a", "d", "t2", "R", "A", "D"]
+        shapes = [[k] for k in kinds] + [["s2"], ["s3"], ["r", "d"], ["d", "r"], ["d", "d"], ["a", "d"], ["r", "r", "d"], ["d", "s2"], ["r", "a", "s3"],
+                                         ["d", "A"], ["r", "D"], ["e3", "d", "t2"], ["d", "d", "d"], ["a", "e2", "d", "r"]]
+        for _ in range(6 if self.tier == "quick" else 60):
+            n = self.r.randint(1, self.c["YR_MAX_LOOP_NESTING"])
+            sh = [self.r.choice(kinds) for _ in range(n)]
+            if self.r.random() < 0.4:
+                sh[-1] = self.r.choice(["s2", "s3", "d"])
+            shapes.append(sh)
+        for sh in shapes:
+            nstr = max([int(k[1:]) for k in sh if k[0] == "s"] + [0])
+
+            def cond(levels, depth):
+                if not levels:
+                    return "$" if any(k[0] == "s" for k in sh) and depth_of_s[0] < depth else "true"
+                k = levels[0]
+                q = self.r.choice(["any", "any", "1"])
+                v = "v%d" % depth
+                inner = cond(levels[1:], depth + 1)
+                if k[0] == "r":
+                    return "for %s %s in (1..3) : ( %s )" % (q, v, inner)
+                if k[0] == "R":
+                    return "for %s %s in (filesize..3) : ( %s )" % (q, v, inner)      # empty at run time (filesize = 10)
+                if k[0] == "e":
+                    return "for %s %s in (%s) : ( %s )" % (q, v, ",".join(str(i + 1) for i in range(int(k[1:]))), inner)
+                if k[0] == "t":
+                    return "for %s %s in (%s) : ( %s )" % (q, v, ",".join('"x%d"' % i for i in range(int(k[1:]))), inner)
+                if k[0] == "a":
+                    return "for %s %s in tests.integer_array : ( %s )" % (q, v, inner)
+                if k[0] == "A":
+                    return "for %s %s in tests.empty_struct_array : ( %s )" % (q, v, inner)
+                if k[0] == "d":
+                    return "for %s k%d, %s in tests.string_dict : ( %s )" % (q, depth, v, inner)
+                if k[0] == "D":
+                    return "for %s k%d, %s in tests.empty_struct_dict : ( %s )" % (q, depth, v, inner)
+                if k[0] == "s":
+                    return "for %s of (%s) : ( %s )" % (q, ",".join("$s%d" % i for i in range(int(k[1:]))), inner)
+                raise ValueError(k)
+
+            depth_of_s = [next((i for i, k in enumerate(sh) if k[0] == "s"), 99)]
+            # `$` (the for..of placeholder) is only legal inside the for..of loop; it is used as innermost body there
+            body = cond(sh, 0)
+            strings = ("strings: %s " % " ".join('$s%d = "%s"' % (i, "a" * (i + 2)) for i in range(nstr))) if nstr else ""
+            rule = 'import "tests"\nrule r { %scondition: %s }\nrule q { condition: r }' % (strings, body)
+            shape = ".".join(sh)
+            # sweep the stack size through the whole range in which the outcome changes
+            for S in range(1, 4 + 2 * len(sh) + max([int(k[1:]) for k in sh if k[0] in "est"] + [0]) + 3):
+                self.add("ls", "scan m=loopstack S=%d ss=%d shape=%s show=q text=%s buf=61*10" % (S, S, shape, hx(rule.replace("\\n", "\n"))))
+
     def matches(self):
         L = self.c["YR_MAX_STRING_MATCHES"]
         toks = ["abcd", "wxyz", "0123", "QRST"]
@@ -413,7 +492,7 @@ class Gen:
 
     def all(self):
         self.ml(); self.fib(); self.regex(); self.loops(); self.idents(); self.intlits(); self.includes()
-        self.strings_per_rule(); self.stack(); self.matches()
+        self.strings_per_rule(); self.stack(); self.set_timeout(); self.loop_stack(); self.fiber_reuse(); self.matches()
         return self.cases
 
 
@@ -510,7 +589,7 @@ def run(tier, replay=None):
                 ("small", Gen(core.rng("C15/small"), cs, True, tier, "s").all())]
     evaluations, nontrivial, hist, samples, validated = 0, set(), {}, [], 0
     LIMIT_TOKENS = ("TOO_MANY_MATCHES", "EXEC_STACK_OVERFLOW", "LOOP_NESTING", "includes_", "TOO_MANY_STRINGS", "identifier_too_long",
-                    "INTEGER_OVERFLOW", "TOO_COMPLEX", "TOO_LARGE", "TOO_MANY_RE_FIBERS", "tmm=")
+                    "INTEGER_OVERFLOW", "TOO_COMPLEX", "TOO_LARGE", "TOO_MANY_RE_FIBERS", "tmm=", "000000000")
     for variant, cases in sets:
         if not cases:
             continue
